@@ -104,6 +104,8 @@ fn res_str<T>(r: Result<T, FeoxError>, f: impl Fn(T) -> String) -> String {
 }
 
 struct Sut {
+    /// a call panicked: the rest of the case is skipped
+    panicked: bool,
     store: Option<Arc<FeoxStore>>,
     cfg: Cfg,
     path: String,
@@ -179,13 +181,21 @@ fn observe_tiers(sut: &mut Sut, s: &mut Sink, fresh: bool) {
 
 fn exec(sut: &mut Sut, s: &mut Sink, op: &Op) {
     let fresh = matches!(op, Op::Reopen { .. });
-    exec_call(sut, s, op);
+    if sut.panicked { return; }
+    // a panic inside the store is an answer like any other (the reference never panics); the case ends there
+    let r = std::panic::catch_unwind(std::panic::AssertUnwindSafe(|| exec_call(sut, s, op)));
+    if r.is_err() {
+        sut.panicked = true;
+        s.emit("panic", format!("panicked {}", op_name(op).replace(' ', "_")), "the store panicked".into());
+        if let Some(st) = sut.store.take() { std::mem::forget(st); }
+        return;
+    }
     observe_tiers(sut, s, fresh);
     // the standing invariants: after every call; the ownership partition where a flush was just acknowledged
     if let Some(st) = sut.store.clone() {
         let mut found = feox_verif_harness::inv::quiescent(&st);
         let acked = match op { Op::Flush => s.last_res_ok, Op::Reopen { .. } => true, _ => false };
-        if acked && !sut.cfg.mem { found.extend(feox_verif_harness::inv::after_flush(&st, &sut.path)); }
+        if acked && !sut.cfg.mem { found.extend(feox_verif_harness::inv::after_flush_opt(&st, &sut.path, matches!(op, Op::Flush))); }
         s.inv_checks += 1;
         for f in found {
             if s.inv_fail.len() < 6 {
@@ -534,12 +544,13 @@ fn gen_case(rng: &mut Rng, s: &mut Sink, dir: &str, recsize: usize, cfg: Cfg, le
     if cfg.mem && rng.chance(1, 5) {
         keys.push(vec![b'w'; *rng.pick(&[65536usize, 70000, 102400])]);
     }
-    let mut sut = Sut { store: None, cfg, path: format!("{}/kv{}.feox", dir, s.cases), now: 1_700_000_000_000_000_000 + rng.below(1_000_000_000), keys };
+    let mut sut = Sut { panicked: false, store: None, cfg, path: format!("{}/kv{}.feox", dir, s.cases), now: 1_700_000_000_000_000_000 + rng.below(1_000_000_000), keys };
     if !start_case(&mut sut, s, recsize) {
         return;
     }
     let mut last_explicit = sut.now;
     for _ in 0..len {
+        if sut.panicked { break; }
         if rng.chance(1, 25) {
             // a directed walk through the storage tiers: write (often with a short TTL), make it
             // durable and offloaded, read it (disk, then cache), let it expire / replace / delete it,
@@ -593,9 +604,11 @@ fn gen_case(rng: &mut Rng, s: &mut Sink, dir: &str, recsize: usize, cfg: Cfg, le
         }
         exec(&mut sut, s, &op);
     }
-    exec(&mut sut, s, &Op::Dump);
-    for k in sut.keys.clone() {
-        exec(&mut sut, s, &Op::Clock { k });
+    if !sut.panicked {
+        exec(&mut sut, s, &Op::Dump);
+        for k in sut.keys.clone() {
+            exec(&mut sut, s, &Op::Clock { k });
+        }
     }
     close_case(&mut sut);
 }
@@ -660,7 +673,7 @@ fn replay(path: &str, s: &mut Sink, dir: &str, recsize: usize) {
                 mem: get("mem") == "1", ttl: get("ttl") == "1", fmt: get("fmt").parse().unwrap_or(3),
                 max: get("max").parse().ok(), cache: get("cache") == "1", blocks: get("blocks").parse().unwrap_or(256),
             };
-            let mut n = Sut { store: None, cfg, path: format!("{}/kvreplay.feox", dir), now: 1_700_000_000_000_000_000, keys: vec![] };
+            let mut n = Sut { panicked: false, store: None, cfg, path: format!("{}/kvreplay.feox", dir), now: 1_700_000_000_000_000_000, keys: vec![] };
             let ok = start_case(&mut n, s, recsize);
             if ok { sut = Some(n); }
             continue;
